@@ -5,6 +5,7 @@ package verifharness
 // from the store after each request.
 
 import (
+	"sync/atomic"
 	"bufio"
 	"encoding/json"
 	"fmt"
@@ -78,6 +79,58 @@ func RunAbmf(env *Env, prefix, in, out string) error {
 	cli := NewDiamClient(fmt.Sprintf("127.0.0.1:%d", env.AbPort), env.Pem, env.Key, "CCA")
 	defer cli.Close()
 	supi := func(u string) string { return SupiOf(prefix, u) }
+	// two reservations for one account written back to back on one connection while the store is slow to answer the first
+	// look-up (it is held until a second look-up arrives, 600 ms at most): a server serves the requests of a connection
+	// one after the other, so the outcome is that of the two requests in turn
+	if len(behs) > 0 {
+		pairNo := 0
+		for _, pr := range [][3]uint64{{100, 60, 60}, {100, 100, 1}, {5, 3, 3}, {0, 1, 1}, {50, 20, 20}} {
+			pairNo++
+			env.ResetState(0)
+			su := supi("7")
+			env.PutAccount(su, 1, strconv.FormatUint(pr[0], 10), "1")
+			var finds int32
+			env.Mongo.BeforeFind = func(string) {
+				if atomic.AddInt32(&finds, 1) == 1 {
+					for i := 0; i < 120 && atomic.LoadInt32(&finds) < 2; i++ {
+						time.Sleep(5 * time.Millisecond)
+					}
+				}
+			}
+			mk := func(num uint32, amt uint64) func(realm, host datatype.DiameterIdentity) any {
+				return func(realm, host datatype.DiameterIdentity) any {
+					return &charging_datatype.AccountDebitRequest{
+						SessionId: "vfpair", OriginHost: "vfclient", OriginRealm: "go-diameter", DestinationRealm: realm, DestinationHost: host,
+						EventTimestamp: datatype.Time(time.Now()), UserName: "CHF",
+						SubscriptionId: &charging_datatype.SubscriptionId{SubscriptionIdType: charging_datatype.END_USER_IMSI, SubscriptionIdData: datatype.UTF8String(su[5:])},
+						CcRequestNumber: datatype.Unsigned32(num), CcRequestType: typeNum["update"], RequestedAction: actionNum["debit"],
+						MultipleServicesCreditControl: &charging_datatype.MultipleServicesCreditControl{RatingGroup: 1,
+							RequestedServiceUnit: &charging_datatype.RequestedServiceUnit{CCTotalOctets: datatype.Unsigned64(amt)}},
+					}
+				}
+			}
+			answers, why := cli.ExchangePair(charging_code.ABMF_CreditControl, charging_code.Re_interface, mk(1, pr[1]), mk(2, pr[2]), 4*time.Second)
+			env.Mongo.BeforeFind = nil
+			got := map[string]any{}
+			for _, a := range answers {
+				p := parseCCA(a)
+				g := int64(-1)
+				if l, ok := p["granted"].([]int); ok {
+					g = BigOfLimbs(l).Int64()
+				}
+				got[fmt.Sprint(p["num"])] = map[string]any{"granted": g, "fui": p["fui"]}
+			}
+			for _, k := range []string{"1", "2"} {
+				if _, ok := got[k]; !ok {
+					got[k] = map[string]any{"granted": int64(-1), "fui": false}
+				}
+			}
+			q, _, _ := env.GetAccount(su, 1)
+			left, _ := strconv.ParseInt(q, 10, 64)
+			emit(map[string]any{"trace": fmt.Sprintf("%s-pair%d", behs[0].ID, pairNo), "seq": 0, "action": "pair", "why": why,
+				"balance": pr[0], "a": pr[1], "b": pr[2], "ans": got, "left": left})
+		}
+	}
 	for _, b := range behs {
 		env.ResetState(0)
 		var keys []string
